@@ -182,10 +182,61 @@ func (s *session) body(b int) *hclwrite.Body {
 	return s.blocks[b].Body()
 }
 
+// the other loaded files of HclWriteTree (same abstract content, blocks written on one line)
+const OneLineSrc = "# lead a\na = 1 # line a\n# lead t\nt \"x\" { b = 2 }\n"
+const EmptyBlkSrc = "# lead a\na = 1 # line a\n# lead t\nt \"x\" {}\n"
+
+func initSrc(init string) string {
+	switch init {
+	case "parsed":
+		return ParsedSrc
+	case "oneline":
+		return OneLineSrc
+	case "emptyblk":
+		return EmptyBlkSrc
+	}
+	return ""
+}
+
+// startsOnBraceLine reports whether the body of the block starts on the line of its opening brace
+// (a one-line block, or a body whose tokens were all removed): appending an item to such a body
+// is the root cause "append-into-one-line-block".
+func startsOnBraceLine(bl *hclwrite.Block) bool {
+	toks := bl.BuildTokens(nil)
+	for i, t := range toks {
+		if t.Type == hclsyntax.TokenOBrace {
+			return i+1 < len(toks) && toks[i+1].Type != hclsyntax.TokenNewline
+		}
+	}
+	return false
+}
+
+// appendsIntoBraceLine: does the operation add a new item to a block body that starts on its brace line?
+func (s *session) appendsIntoBraceLine(o Op) bool {
+	if o.B == 0 {
+		return false
+	}
+	bl, ok := s.blocks[o.B]
+	if !ok || bl == nil {
+		return false
+	}
+	switch o.Op {
+	case "SetAttr":
+		if bl.Body().GetAttribute(o.Name) != nil {
+			return false
+		}
+	case "AppendNewBlock", "AppendBlock":
+	case "Decorate":
+	default:
+		return false
+	}
+	return startsOnBraceLine(bl)
+}
+
 func newSession(init string) (*session, error) {
 	s := &session{blocks: map[int]*hclwrite.Block{}, next: 4}
-	if init == "parsed" {
-		f, diags := hclwrite.ParseConfig([]byte(ParsedSrc), "init.hcl", hcl.InitialPos)
+	if src := initSrc(init); src != "" {
+		f, diags := hclwrite.ParseConfig([]byte(src), "init.hcl", hcl.InitialPos)
 		if diags.HasErrors() {
 			return nil, fmt.Errorf("initial file does not load: %s", diags.Error())
 		}
@@ -235,6 +286,16 @@ func (s *session) apply(o Op) {
 		s.blocks[o.H].SetType(o.Name)
 	case "SetLabels":
 		s.blocks[o.H].SetLabels(o.Labels)
+	case "Clear":
+		s.body(o.B).Clear()
+	case "Decorate":
+		if o.Name == "newline" {
+			s.body(o.B).AppendNewline()
+		} else {
+			s.body(o.B).AppendUnstructuredTokens(hclwrite.Tokens{
+				{Type: hclsyntax.TokenComment, Bytes: []byte("# note\n")},
+			})
+		}
 	default:
 		panic("unknown op " + o.Op)
 	}
@@ -451,7 +512,8 @@ func (s *session) modelCheck(v Vector, src []byte, proj []projItem) (string, str
 			for i := 0; i+len(chunk) <= len(lines); i++ {
 				ok := true
 				for j := range chunk {
-					if lines[i+j] != chunk[j] {
+					// a block header keeps its tokens even when the body after the brace changes
+					if lines[i+j] != chunk[j] && !(strings.HasSuffix(chunk[j], "{") && strings.HasPrefix(lines[i+j], chunk[j])) {
 						ok = false
 						break
 					}
@@ -489,6 +551,10 @@ func opString(o Op) string {
 		return fmt.Sprintf("h%d.SetType(%q)", o.H, o.Name)
 	case "SetLabels":
 		return fmt.Sprintf("h%d.SetLabels(%q)", o.H, o.Labels)
+	case "Clear":
+		return fmt.Sprintf("body(%d).Clear()", o.B)
+	case "Decorate":
+		return fmt.Sprintf("body(%d).Append[%s]()", o.B, o.Name)
 	}
 	return o.Op
 }
@@ -527,7 +593,11 @@ func Handle(c *core.Check, st core.State) {
 	}
 	var src []byte
 	var proj []projItem
+	tainted := false
 	for i, o := range v.Hist {
+		if _, p := core.Guard(func() { tainted = tainted || s.appendsIntoBraceLine(o) }); p {
+			tainted = false
+		}
 		if rec, p := core.Guard(func() { s.apply(o) }); p {
 			msg := fmt.Sprint(rec)
 			if len(msg) > 60 {
@@ -539,6 +609,12 @@ func Handle(c *core.Check, st core.State) {
 		var kind, detail string
 		if rec, p := core.Guard(func() { kind, detail, src, proj = s.modelFreeCheck() }); p {
 			report("panic-in-accessors", fmt.Sprint(rec), i)
+			return
+		}
+		if kind == "serialised-parse-error" && tainted {
+			// known root cause; the file is unusable from here on
+			c.Violation("serialised-parse-error/append-into-one-line-block", fmt.Sprintf("after step %d of history [%s]: %s; serialised file %q", i+1, HistString(v), detail, src),
+				map[string]any{"state": st.Raw, "history": HistString(v)})
 			return
 		}
 		if kind != "" {
